@@ -286,6 +286,7 @@ package stack
 //@   at-return [bufferedInSuffix C02 C07] opts != nil && s != nil && s.state != looking ==> len(result1) >= r.w - r.r
 //@   ensures [fetchedGrows C02] fetched(in) >= old(fetched(in)) && fetched(in) <= N(in) && wlen(prefix) >= 0
 //@   ensures [snapshotHasGoroutine C03] result0 != nil ==> len(result0.Goroutines) >= 1 && fresh(result0)
+//@   ensures [snapshotGoroutinesNonNil C03] result0 != nil ==> forall i :: 0 <= i && i < len(result0.Goroutines) ==> result0.Goroutines[i] != nil
 //@   ensures [scanProgress C03] result2 == nil ==> old(fetched(in)) + (wlen(prefix) - old(wlen(prefix))) + len(result1) < fetched(in)
 //@   at-return [readerErrorWins C10] opts != nil && s != nil && rdErr != nil && rdErr != io.EOF ==> result2 == rdErr
 //@   at-return [noDumpAllForwarded C02] opts != nil && s != nil && s.state == looking && werrs(prefix) == old(werrs(prefix)) ==> old(fetched(in)) + (wlen(prefix) - old(wlen(prefix))) == fetched(in)
@@ -1135,3 +1136,12 @@ package stack
 //@ func lineToByteOffsets
 //@   modifies nothing
 //@   loop 0: invariant 0 <= offset && offset <= len(src) && fresh(offsets)
+
+// Call-site view of Aggregate inside processInner: its proved contract needs the
+// well-formedness of the parsed goroutines, which ScanSnapshot does not export;
+// here only the wiring is checked (which snapshot, which similarity).
+//@ func (*Snapshot).Aggregate@processInner
+//@   option assumed
+//@   modifies nothing
+//@   ensures result != nil && fresh(result) && forall i :: 0 <= i && i < len(result.Buckets) ==> result.Buckets[i] != nil
+
